@@ -26,7 +26,7 @@ SCRATCH = os.path.join(core.OUT, "c11")
 MAX_PER_SIG = 3          # violations kept per (rule, ctx) and direction
 FIELDS = ("ty", "cid", "ts", "td", "wnd", "seq", "ack")
 
-REQUIRED = ["C11.NoPanic", "C11.ParseAgrees", "C11.MessageAgrees", "C11.UnknownSkipped",
+REQUIRED = ["C11.EmitWellFormed", "C11.EmitConnId", "C11.NoPanic", "C11.ParseAgrees", "C11.MessageAgrees", "C11.UnknownSkipped",
             "C11.SerializeAgrees", "C11.RoundTrip", "C11.RoundTrip.sack-len", "C11.RoundTrip.both-ext",
             "C11.SerializeAgrees.both-ext",
             "C11.n.accepted", "C11.n.rejected", "C11.n.message-accepted", "C11.n.serialised"]
@@ -34,12 +34,16 @@ REQUIRED = ["C11.NoPanic", "C11.ParseAgrees", "C11.MessageAgrees", "C11.UnknownS
 
 # ------------------------------------------------------------------ hook (filled in by the integrator)
 def emitted_datagram_part(r, tier, seed):
-    """HOOK: "Every datagram the library emits is accepted by an independent BEP-29 parser and carries
-    protocol version 1 and the connection id owed to that direction."  Judged on the network-level traces
-    (UtpTrace.tla, rules C11.EmitWellFormed / C11.EmitConnId).  Add the scenario runs here and feed them
-    to `r` (r.add_validated(...)); leave `pass` to run the component-level part only."""
-    pass
-
+    """"Every datagram the library emits is accepted by an independent BEP-29 parser and carries protocol
+    version 1 and the connection id owed to that direction."  Judged on network-level traces: every `tx` line
+    carries the raw header bytes, UtpTrace.tla parses them with Wire.tla (the parser of record, not the library's
+    codec) and evaluates C11.EmitWellFormed / C11.EmitConnId."""
+    from . import props
+    core.build_harness()
+    n = 1 if tier == "quick" else 8
+    scripts = (props.fam_xfer(seed, 10 * n) + props.fam_many(seed, 10 * n) + props.fam_hostile(seed, 8 * n)
+               + props.fam_close(seed, 10 * n) + props.fam_backlog(seed, 2 * n))
+    r.add_validated(core.run_and_validate("C11emit", scripts), rules_prefix=["C11."])
 
 # ------------------------------------------------------------------ plumbing
 def build():
